@@ -100,6 +100,10 @@ class Parser:
             line = line.split("#")[0]
 
         include_pairs = line.split()
+        if len(include_pairs) < 2:
+            raise ParseError(
+                f"INCLUDE directive without a file name: '{line.strip()}'"
+            )
         if len(include_pairs) > 2:
             log.warning(
                 "Multiple include files have been found on the same line. "
